@@ -1,1 +1,70 @@
-/-! C16 — property theorems (placeholder until the model exists). -/
+import EupsModel.Lemmas.RecordReloc
+/-! C16 — database records round-trip and stacks are relocatable.  Property theorems only.
+Model and the specification-side definitions used in the statements (`DirPl`, `TabPl`, `DirPl.at`, `TabPl.at`,
+`declaredProd`, `canonInfo`, `PlaceOK`, `DeclEx`, `ReadEx`, `readBack`): `Model/Record.lean`; helper lemmas:
+`Lemmas/Record.lean`, `Lemmas/RecordReloc.lean`. -/
+namespace EupsModel.C16
+open EupsModel.Record
+
+/-! ## Relocation
+
+A *placement* says where the product directory and the table file are relative to the stack `root`.
+`declaredProd root … d t` is the `Product` that `Eups.declare` hands to `Database.declare`; `declarePaths` is what
+`Database.declare` + `VersionFile.addFlavor/write` store; `resolveInfo` is what `VersionFile.makeProduct` +
+`Product.resolvePaths` give a reader whose stack is at `root'`; `readBack` composes them.  `d.at root'` and
+`t.at root' …` are the locations the property demands: paths inside the stack re-rooted, paths outside unchanged. -/
+
+/-- Products are recorded relative to the stack: for every listed placement the stored block is `canonInfo`,
+which does not mention `root` at all unless the path is outside the stack. -/
+theorem C16_recorded_relative (ex : Path → Bool) (root : List Str) (name version flavor : Str) (d : DirPl) (t : TabPl)
+    (hp : PlaceOK root name version flavor d t) (hx : DeclEx ex root name version flavor d t) :
+    (declarePaths ex (declaredProd root name version flavor d t) none).map (·.2)
+      = .ok (canonInfo name version flavor d t) :=
+  canon_spec ex root name version flavor d t hp hx
+
+/-- **Relocation** (core theorem).  Declare with the stack at `root`; move or copy the stack to `root'`; a reader
+there reports the directory and the table file at `root'` if they were inside the stack and where they were if
+they were outside — for each placement: directory inside / outside / none × table file in `dir/ups` /
+absolute inside the stack / absolute outside / interned in `ups_db` / none. -/
+theorem C16_relocate (ex ex' : Path → Bool) (root root' : List Str) (name version flavor : Str) (d : DirPl) (t : TabPl)
+    (hp : PlaceOK root name version flavor d t) (hroot' : SegsOK root')
+    (hd : DeclEx ex root name version flavor d t) (hr : ReadEx ex' root' name version flavor d t) :
+    readBack ex ex' root root' name version flavor d t
+      = .ok (d.at root', t.at root' name version flavor d) := by
+  have h1 := canon_spec ex root name version flavor d t hp hd
+  have h2 := resolve_spec ex' root root' name version flavor d t hp hroot' hr
+  unfold readBack
+  cases hdp : declarePaths ex (declaredProd root name version flavor d t) none with
+  | error e => simp [hdp, Except.map] at h1
+  | ok cp =>
+    obtain ⟨c, pi⟩ := cp
+    simp only [hdp, Except.map, Except.ok.injEq] at h1
+    subst h1
+    cases hri : resolveInfo ex' name version flavor (absP (root' ++ [sUpsDb])) (canonInfo name version flavor d t) with
+    | error e => simp [hri, Except.map] at h2
+    | ok p =>
+      simp only [hri, Except.map, Except.ok.injEq] at h2
+      simp only [Prod.mk.injEq] at h2
+      simp only [hri, h2.1, h2.2]
+
+/-- Without moving anything (`root' = root`) the reader reports exactly the declared locations. -/
+theorem C16_declared_locations (ex : Path → Bool) (root : List Str) (name version flavor : Str) (d : DirPl) (t : TabPl)
+    (hp : PlaceOK root name version flavor d t)
+    (hd : DeclEx ex root name version flavor d t) (hr : ReadEx ex root name version flavor d t) :
+    readBack ex ex root root name version flavor d t = .ok (d.at root, t.at root name version flavor d) :=
+  C16_relocate ex ex root root name version flavor d t hp hp.root_ok hd hr
+
+/-! Non-vacuity: a concrete stack `/s`, product `a 1` for flavor `L`, installed in `/s/L/a/1`, with the table
+file interned; everything exists.  The hypotheses hold and the reader at `/m/n` finds `/m/n/L/a/1` and
+`/m/n/ups_db/L/a/1/ups/a.table`. -/
+example : PlaceOK [[115]] [97] [49] [76] (.inside [[76], [97], [49]]) .interned :=
+  ⟨by decide, by decide, by decide, by decide, by decide, by simp [SegsOK, SegOK, sUpsDb], trivial⟩
+example : PlaceOK [[115]] [97] [49] [76] (.outside [[111], [97]]) (.absInside [[116], [97, 46, 116]]) :=
+  ⟨by decide, by decide, by decide, by decide, by decide, by simp [SegsOK, SegOK, List.isPrefixOf], by simp [SegsOK, SegOK, sUpsDb]⟩
+example : DeclEx (fun _ => true) [[115]] [97] [49] [76] (.inside [[76], [97], [49]]) .interned := by simp [DeclEx]
+example : ReadEx (fun _ => true) [[109], [110]] [97] [49] [76] (.inside [[76], [97], [49]]) .interned := by simp [ReadEx]
+example : readBack (fun _ => true) (fun _ => true) [[115]] [[109], [110]] [97] [49] [76] (.inside [[76], [97], [49]]) .interned
+    = .ok (.path ⟨true, [[109], [110], [76], [97], [49]]⟩,
+           .path ⟨true, [[109], [110], sUpsDb, [76], [97], [49], sUps, [97] ++ sDotTable]⟩) := by rfl
+
+end EupsModel.C16
